@@ -93,7 +93,9 @@ func (s *Set[T]) forceSetupOrdered() {
 	fun.Invariant.Ok(s.list == nil)
 	s.list = &List[T]{}
 	for item := range s.hash {
-		s.list.PushBack(item)
+		elem := NewElement(item)
+		s.list.Back().Append(elem)
+		s.hash[item] = elem
 	}
 }
 
